@@ -258,6 +258,23 @@ def clock_writers(chk: Check, repo: Repo) -> None:
     chk.unit(g)
     rets = [n for n in walk_local(g.node) if isinstance(n, ast.Return)]
     chk.ob("outgoing-timer", g.site(), len(rets) == 1 and ast.unparse(rets[0].value) == "self.secure_timer.get_for_outgoing_secure_wrapper().to_bytes(6, 'big')", "outgoing wrappers carry the current timer value (6 octets)", key="outgoing-timer")
+    # ... and none leaves before the synchronisation has set the timer: the value a wrapper sent meanwhile carries (own
+    # clock, possibly moved on by authenticated notifications) can be above the one the reply sets - the next wrapper would
+    # carry a lower one.  The receive path has the same gate (group-receive cells); the flag is set only at the end of
+    # synchronize() and withdrawn by stop(), so a second connect() of the same object is gated again
+    sd = repo.func(M, "SecureGroup.send")
+    chk.unit(sd)
+    scfg = CFG(sd.node)
+    smf = scfg.must_facts()
+    enc = [n for n in scfg.nodes if n.ast is not None and n.kind == "stmt" and any(call_name(c) in ("self.encrypt_frame", "super().send") for c in calls(n.ast))]
+    gated = bool(enc) and all(("self.secure_timer.timer_authenticated", True) in smf[n.id] for n in enc)
+    chk.ob("no-wrapper-before-the-timer-is-synchronised", sd.site(), gated, "SecureGroup.send wraps and sends only where secure_timer.timer_authenticated holds" if gated else "SecureGroup.send wraps a frame with the unsynchronised timer: a send while connect() still waits for the synchronisation reply carries a timer value above the one the reply then sets - the next wrapper's timer value is lower", key="send|before-sync")
+    tw = attr_writes(repo, "timer_authenticated", include_mutators=False)
+    by = {}
+    for w in tw:
+        by.setdefault(w.func.qualname, []).append(ast.unparse(w.stmt.value))
+    okw = by.get("SecureSequenceTimer.synchronize") == ["True"] and by.get("SecureSequenceTimer.stop") == ["False"] and by.get("SecureSequenceTimer.__init__") == ["False"] and set(by) == {"SecureSequenceTimer.synchronize", "SecureSequenceTimer.stop", "SecureSequenceTimer.__init__"}
+    chk.ob("no-wrapper-before-the-timer-is-synchronised", sy.site(), okw, f"timer_authenticated writers: {by} (reference: False in __init__ and stop(), True at the end of synchronize())", key="send|flag-writers")
 
 
 def latency_plumbing(chk: Check, repo: Repo) -> None:
